@@ -369,18 +369,19 @@ let exec (op : string) : unit =
     | [ "clearlong" ] -> "ok"
     | [ "key" ] -> with_board (fun b -> key_spec b; Printf.sprintf "key %016Lx" (u64_of_n b.hash))
     | [ "sctx"; d ] -> sdepth := int_of_string d; "ok"
-    | "search" :: _ ->
+    | ("search" | "sched") :: _ ->
         (* oracle: exact minimax; the implementation's (score, move) is checked against
            `=search` by the comparer: score equal, move among the moves attaining it *)
         with_board (fun b ->
-            if !sdepth < 1 then "search Err DepthTooLow"
+            let tag = List.hd toks in
+            if !sdepth < 1 then tag ^ " Err DepthTooLow"
             else match root_values tbl rk bs (nat_of_int !sdepth) b with
-              | Ok [] -> "search Err NoAvailableMoves"
+              | Ok [] -> tag ^ " Err NoAvailableMoves"
               | Ok vs ->
                   let vals = List.map (fun (_, v) -> int_of_z v) vs in
                   let best = if b.turn = White then List.fold_left max min_int vals else List.fold_left min max_int vals in
                   let att = List.filter (fun (_, v) -> int_of_z v = best) vs in
-                  Printf.sprintf "search Ok %d {%s} {%s}" best (String.concat " " (List.sort compare (List.map (fun (m, _) -> mv_text m) att)))
+                  Printf.sprintf "%s Ok %d {%s} {%s}" tag best (String.concat " " (List.sort compare (List.map (fun (m, _) -> mv_text m) att)))
                     (String.concat " " (List.sort compare (List.map (fun (m, _) -> mv_text m) vs)))
               | _ -> "PANIC")
     | "perft" :: d :: _ ->
@@ -465,6 +466,40 @@ let exec (op : string) : unit =
         (match !game with
          | Some g -> Printf.sprintf "gsnap %s | last %s" (game_snap g) (match !hist with m :: _ -> m | [] -> "-")
          | None -> "PANIC")
+    | [ "gbsnap" ] -> (match !game with Some g -> snap_of g.gboard | None -> "PANIC")
+    | "cliin" :: rest ->
+        (* the command-line input layer: coordinate pattern first, then the notation pattern
+           (regexes translated from src/input_handler/mod.rs), then the Game API *)
+        (match !game with
+         | None -> "PANIC"
+         | Some g ->
+             let s = (match rest with t :: _ -> t | [] -> "") in
+             let cs = chars_of_string s in
+             let b = g.gboard in
+             (* spec: a label the engine prints for a legal move of this position must be accepted as that move *)
+             let printed =
+               (match gen_annotated tbl rk bs b b.turn with
+                | Ok (l, b1) -> (match san_all b1 (List.map fst l) l with
+                    | Ok labelled -> List.map (fun (m, t) -> (string_of_chars t, m)) labelled
+                    | _ -> [])
+                | _ -> []) in
+             let res =
+               if full_match cOORDINATE_RE cs then
+                 (match apply_by_coords tbl rk bs g (n_of_int (parse_sq (String.sub s 0 2))) (n_of_int (parse_sq (String.sub s 2 2))) with
+                  | GOk (m, g') -> game := Some g'; hist := mv_text m :: !hist; "cliin accepted " ^ mv_text m
+                  | GPanic -> "cliin PANIC"
+                  | _ -> "cliin refused-game")
+               else if full_match aLGEBRAIC_RE cs then
+                 (match apply_by_notation tbl rk bs g cs with
+                  | GOk (m, g') -> game := Some g'; hist := mv_text m :: !hist; "cliin accepted " ^ mv_text m
+                  | GPanic -> "cliin PANIC"
+                  | _ -> "cliin refused-game")
+               else "cliin refused-parser" in
+             (match List.assoc_opt s printed with
+              | Some m when res <> "cliin accepted " ^ mv_text m ->
+                  spec_fail (Printf.sprintf "C14 `%s` is the label printed for the legal move %s but the input layer answers [%s] in [%s]" s (mv_text m) res (snap_of b))
+              | _ -> ());
+             res)
     | [ "gover" ] ->
         (match !game with
          | Some g -> (match game_ending tbl rk bs g.gboard g.gboard.turn with Ok (e, _) -> Printf.sprintf "gover %c" (ending_char e) | _ -> "PANIC")
